@@ -24,6 +24,7 @@ where
     consumed: usize,  // bytes consumed from `buffer`
     remaining: usize, // bytes remaining until next chunk
     reached_eof: bool,
+    failed: bool, // a refill failed: the framing state is unknown, every further read fails
 }
 
 impl<R> ChunkedReader<R>
@@ -37,6 +38,7 @@ where
             consumed: 0,
             remaining: 0,
             reached_eof: false,
+            failed: false,
         }
     }
 
@@ -47,6 +49,32 @@ where
         }
         parse_chunk_size(&self.buffer)
     }
+
+    // Reads the next piece of chunk data into `buffer`.
+    fn refill(&mut self) -> io::Result<()> {
+        const MAX_BUFFER_LEN: usize = 64 * 1024;
+
+        if self.remaining == 0 {
+            self.remaining = self.read_chunk_size()?;
+            if self.remaining == 0 {
+                self.reached_eof = true;
+            }
+        }
+
+        self.buffer.resize(cmp::min(self.remaining, MAX_BUFFER_LEN), 0);
+        self.inner.read_exact(&mut self.buffer)?;
+        self.consumed = 0;
+        self.remaining -= self.buffer.len();
+
+        if self.remaining == 0 && !buffers::read_line_ending(&mut self.inner)? {
+            self.buffer.clear();
+            self.reached_eof = true;
+
+            return Err(InvalidResponseKind::Chunk.into());
+        }
+
+        Ok(())
+    }
 }
 
 impl<R> BufRead for ChunkedReader<R>
@@ -54,26 +82,18 @@ where
     R: Read,
 {
     fn fill_buf(&mut self) -> io::Result<&[u8]> {
-        const MAX_BUFFER_LEN: usize = 64 * 1024;
+        if self.failed {
+            return Err(InvalidResponseKind::Chunk.into());
+        }
 
         if self.buffer.len() == self.consumed && !(self.remaining == 0 && self.reached_eof) {
-            if self.remaining == 0 {
-                self.remaining = self.read_chunk_size()?;
-                if self.remaining == 0 {
-                    self.reached_eof = true;
-                }
-            }
-
-            self.buffer.resize(cmp::min(self.remaining, MAX_BUFFER_LEN), 0);
-            self.inner.read_exact(&mut self.buffer)?;
-            self.consumed = 0;
-            self.remaining -= self.buffer.len();
-
-            if self.remaining == 0 && !buffers::read_line_ending(&mut self.inner)? {
+            if let Err(err) = self.refill() {
+                // `buffer` may hold a size line or a partially filled chunk at this point and
+                // `consumed` may point past its end: never hand any of that out.
+                self.failed = true;
                 self.buffer.clear();
-                self.reached_eof = true;
-
-                return Err(InvalidResponseKind::Chunk.into());
+                self.consumed = 0;
+                return Err(err);
             }
         }
 
